@@ -43,6 +43,10 @@ def gen(rng, tier, run):
         names = [rng.choice(['e', 't', 'a dimension', 'µ', '0']) + str(ax) for ax in range(len(shape))]
         names[rng.randrange(len(shape))] = ''
         case['names'] = names
+    if rng.random() < 0.12:
+        # the bins of the live dataset are replaced after its construction (edges by centres or centres by edges, as the
+        # notebooks do: ds.bins['t'] = ...): the dataset is then sliced as it is, not as it was born
+        case['born'] = [rng.choice('ec') for _ in shape]
     return case
 
 
@@ -109,7 +113,15 @@ def run_impl(case, run):
     value = np.arange(size).reshape(case['shape'])
     error = np.arange(size).reshape(case['shape']) + 1000
     bins = OrderedDict((k, np.array(v)) for k, v in make_bins(case))
-    dset = Dataset(value, error, bins=bins, name='n', what='w')
+    if case.get('born'):
+        born = OrderedDict((k, np.array(v)) for k, v in make_bins(dict(case, kinds=case['born'])))
+        dset = Dataset(value, error, bins=born, name='n', what='w')
+        for key, arr in bins.items():
+            if len(arr) != len(born[key]):
+                dset.bins[key] = arr
+        bins = OrderedDict(dset.bins)
+    else:
+        dset = Dataset(value, error, bins=bins, name='n', what='w')
     before = (value.copy(), error.copy(), [(k, v.copy()) for k, v in bins.items()])
     out = {}
     steps = case.get('steps') or [None] * len(case['slices'])
